@@ -27,6 +27,9 @@ type Case struct {
 	SrcOpts gen.WriterOpts `json:"srcopts"`
 	Sorting []int          `json:"sorting,omitempty"`
 	Lead    int            `json:"lead,omitempty"` // >0: byte array leaves are empty in the first Lead rows and non-empty afterwards
+	// Carry (klen, 0xFF run, period, desc) > 0: byte array leaves are ordered keys
+	// alternating with long values ending in a 0xFF run (gen.Carry)
+	Carry []int `json:"carry,omitempty"`
 }
 
 var paths = []string{"WriteRows", "WriteRows", "WriteRows", "WriteRowGroup(file)", "WriteRowGroup(file,same-config)"}
@@ -36,7 +39,12 @@ func genCase(t *rapid.T) Case {
 	c.Schema = gen.Schema(t, gen.SchemaOpts{MaxDepth: 2, MaxLeaves: 4, LeafIDs: gen.AllLeafIDs, PerLeafEnc: true, EncFor: pq.ValidEncodings})
 	cols := ref.Columns(&c.Schema)
 	st := []gen.Style{gen.Mixed, gen.Mixed, gen.SmallDom, gen.Wide}[rapid.IntRange(0, 3).Draw(t, "style")]
-	c.Plan = gen.RowsAtLeast(t, &c.Schema, 10, []int{0, 20, 60, 150}[rapid.IntRange(0, 3).Draw(t, "min")], kit.Pick(400, 3000), gen.ValueOpts{Style: st, Leaf: gen.Opts{MaxBytes: 40}})
+	carry := rapid.IntRange(0, 5).Draw(t, "carry") == 0
+	minRows := []int{0, 20, 60, 150}[rapid.IntRange(0, 3).Draw(t, "min")]
+	if carry && minRows < 60 {
+		minRows = 60
+	}
+	c.Plan = gen.RowsAtLeast(t, &c.Schema, 10, minRows, kit.Pick(400, 3000), gen.ValueOpts{Style: st, Leaf: gen.Opts{MaxBytes: 40}})
 	c.Plan.Uniq = rapid.IntRange(0, 2).Draw(t, "uniq") == 0
 	bias := gen.OptsBias{SmallPages: rapid.IntRange(0, 3).Draw(t, "small") != 0, NoBloom: true, EncFor: pq.ValidEncodings, Codecs: []string{"", "", "snappy"}}
 	c.Opts = gen.WriterOptions(t, cols, bias)
@@ -47,6 +55,33 @@ func genCase(t *rapid.T) Case {
 	c.SrcOpts.Pool = ""
 	if rapid.IntRange(0, 3).Draw(t, "lead") == 0 {
 		c.Lead = rapid.IntRange(1, 48).Draw(t, "leadn")
+	}
+	if carry {
+		// the key ends inside the size limit of the column index and the 0xFF run crosses it (usually)
+		lim := c.Opts.IndexLimit
+		if lim == 0 {
+			lim = 16
+		}
+		if lim < 2 || lim > 64 {
+			lim = 8
+		}
+		klen := rapid.IntRange(1, lim-1).Draw(t, "klen")
+		ff := lim - klen + rapid.IntRange(-1, 6).Draw(t, "ff")
+		if ff < 1 {
+			ff = 1
+		}
+		c.Carry = []int{klen, ff, rapid.IntRange(2, 4).Draw(t, "period"), rapid.IntRange(0, 1).Draw(t, "cdesc")}
+		c.Opts.PageBuf = pickOf(t, []int{32, 48, 64, 100, 128, 256}, "cpagebuf")
+		// page sizes are evaluated once per write call: many short writes make many pages
+		c.Ops = nil
+		for left := c.Plan.NumRows(); left > 0; {
+			n := min(rapid.IntRange(1, 5).Draw(t, "cbn"), left)
+			c.Ops = append(c.Ops, gen.Op{Kind: "w", N: n})
+			left -= n
+			if rapid.IntRange(0, 39).Draw(t, "cflush") == 0 {
+				c.Ops = append(c.Ops, gen.Op{Kind: "f"})
+			}
+		}
 	}
 	if rapid.IntRange(0, 3).Draw(t, "sorting") == 0 {
 		for i, col := range cols {
@@ -62,6 +97,10 @@ func genCase(t *rapid.T) Case {
 		}
 	}
 	return c
+}
+
+func pickOf(t *rapid.T, xs []int, label string) int {
+	return xs[rapid.IntRange(0, len(xs)-1).Draw(t, label)]
 }
 
 func (c Case) sortingOption(cols []ref.Column) []parquet.WriterOption {
@@ -197,6 +236,10 @@ func runCase(c Case, o *kit.Obs) *kit.Failure {
 	if c.Lead > 0 {
 		gen.LeadEmpty(&c.Schema, rows, c.Lead)
 		o.Class("lead-empty")
+	}
+	if len(c.Carry) == 4 && c.Carry[0] > 0 && c.Carry[1] > 0 && c.Carry[2] > 1 {
+		gen.Carry(&c.Schema, rows, c.Carry[0], c.Carry[1], c.Carry[2], c.Carry[3] != 0)
+		o.Class("carry-bounds")
 	}
 	data, err := produce(c, cols, rows)
 	if err != nil {
